@@ -537,7 +537,6 @@ FOCI = {
     "type_of_untyped": "F-C16-4b",
     "array_element_type": "F-C16-8",
     "json_leaf": "F-C16-10",
-    "array_time_default": "F-C16-11",
 }
 INT64_LO, UINT64_HI = -(2 ** 63), 2 ** 64
 
@@ -581,14 +580,6 @@ def _array_without_element(attrs):
     return _a(attrs, "type") == ["ty", "ARRAY"] and _a(attrs, "element_type") in (["n"], MISSING)
 
 
-def _array_time_default(attrs):
-    """ARRAY<TIME> with a non-empty default: the constructor turns the elements into datetime.time objects, which
-    TIME.parse then rejects, so the column can be neither restored, serialised nor flattened (candidate F-C16-11)"""
-    d = _a(attrs, "default")
-    return (_a(attrs, "type") == ["ty", "ARRAY"] and _a(attrs, "element_type") == ["ty", "TIME"] and d[0] == "l"
-            and any(x[0] == "o" and x[1] == "datetime.time" for x in d[1]))
-
-
 def _unfaithful_leaf(e, parsed_back):
     """parsed_back: the value is the default of a typed column (from_json casts it back); otherwise it is kept as read"""
     import math
@@ -608,6 +599,8 @@ def _unfaithful_leaf(e, parsed_back):
         return bool(e[8]) or not parsed_back             # tzinfo lost / text comes back
     if k == "t":
         return True                                      # to_json raises
+    if k == "o" and e[1] == "datetime.time":
+        return True                                      # written as 'hh:mm:ss', which TIME.parse cannot read: from_json raises
     if k in ("d", "D", "j", "o"):
         return not parsed_back
     return False
@@ -641,8 +634,6 @@ def known(case, obs):
     cols = _built(obs)
     if cols is None:
         return None
-    if any(_array_time_default(a) for a in cols):
-        return FOCI["array_time_default"]      # nothing can be compared on such a column
     f = case.get("focus")
     if f == "type_of_untyped" and any(_is_untyped(a) for a in cols):
         return FOCI[f]
@@ -1017,11 +1008,11 @@ DEFAULTS = {
     "STRUCT": [["y", list(b'{"a":1}')], ["j", '{"a": 1}'], S_('{"a":1}')],
     "JSONB": [["y", list(b'{"a":1}')], ["j", '{"a": 1}']],
     "NULL": [I_(1)],
-    "TIME": [S_("03:04:05")],
+    "TIME": [I_(3), S_("03:04:05"), I_(0)],   # an epoch number builds a time; time-only text is rejected; JSON path: F-C16-10
     "INTERVAL": [I_(2), ["t", 1, 0, 0], I_(0)],      # to_json raises for these (F-C16-10); the other operations are compared
     None: [["n"], I_(0), S_(""), I_(5), S_("abc")],  # an untyped column keeps its default untouched
 }
-UNFAITHFUL_DEFAULTS = [("INTERVAL", ["t", 1, 0, 0]), (None, ["D", 2020, 1, 2]), ("BLOB", ["y", [255, 254]]), ("INTEGER", I_(2 ** 70)), ("DOUBLE", F_(float("inf"))),
+UNFAITHFUL_DEFAULTS = [("TIME", I_(3)), ("INTERVAL", ["t", 1, 0, 0]), (None, ["D", 2020, 1, 2]), ("BLOB", ["y", [255, 254]]), ("INTEGER", I_(2 ** 70)), ("DOUBLE", F_(float("inf"))),
                        ("TIMESTAMP", ["T", 2020, 1, 2, 3, 4, 5, 0, True]), ("JSONB", ["y", [128]])]
 UNFAITHFUL_STATS = [["d", 15, -1], ["D", 2020, 1, 1], ["y", [97]], F_(float("inf")), ["T", 2020, 1, 2, 3, 4, 5, 0, False]]
 STATS = [I_(1), I_(-7), F_(2.5), S_("aa"), S_(""), I_(0), ["n"], I_(2 ** 40)]
@@ -1295,8 +1286,6 @@ KNOWN_WITNESSES = {
     # an ARRAY column without element type comes back as ARRAY<VARCHAR>
     "F-C16-8": _one([[["name", S_("l")], ["type", ["ty", "ARRAY"]], ["identity", _ID[0]]]], focus="array_element_type"),
     # values the JSON form cannot carry back: here a Decimal statistic comes back as text
-    # candidate: an ARRAY<TIME> column with a default builds but can then not be restored, serialised or flattened
-    "F-C16-11": _one([[["name", S_("ts")], ["type", S_("ARRAY<TIME>")], ["default", ["l", [I_(1), I_(2)]]], ["identity", _ID[0]]]], focus="array_time_default"),
     "F-C16-10": _one([[["name", S_("p")], ["type", S_("DECIMAL(5,2)")], ["lowest_value", ["d", 15, -1]], ["highest_value", ["d", 9, 0]], ["identity", _ID[0]]]],
                      focus="json_leaf"),
 }
@@ -1331,6 +1320,9 @@ def corpus():
     # F-C16-9 (fixed by 3a48dd3): an INTERVAL column with a default could not be restored or flattened
     yield _one([[["name", S_("i")], ["type", S_("INTERVAL")], ["default", I_(2)], ["identity", _ID[0]]]])
     yield {"kind": "flat", "cls": "FlatColumn", "focus": None, "kw": [["name", S_("i")], ["type", S_("INTERVAL")], ["default", ["t", 1, 30, 0]], ["identity", _ID[1]]]}
+    # F-C16-11 (fixed by 58338dc): an ARRAY<TIME> column with a default built but could not be restored, serialised or flattened
+    yield _one([[["name", S_("ts")], ["type", S_("ARRAY<TIME>")], ["default", ["l", [I_(1), I_(2)]]], ["identity", _ID[0]]]])
+    yield _one([[["name", S_("t")], ["type", S_("TIME")], ["default", I_(3)], ["identity", _ID[0]]]])
     # 6cdb3c9: falsy defaults are cast too, with the column's own parameters
     yield _one([[["name", S_("b")], ["type", S_("BLOB")], ["default", ["y", []]], ["identity", _ID[0]]],
                 [["name", S_("v")], ["type", S_("VARCHAR[3]")], ["default", S_("abcdef")], ["identity", _ID[1]]],
